@@ -294,3 +294,14 @@ pub fn make_blake_mac(s: bool, outlen: usize, key: &[u8]) -> Box<dyn LifeObj> {
         Box::new(B2bMac(if key.is_empty() { blake2b::Blake2b::new(outlen) } else { blake2b::Blake2b::new_keyed(outlen, key) }))
     }
 }
+
+/// the legacy static one-call functions `Blake2b::blake2b(out, input, key)` / `Blake2s::blake2s(out, input, key)`
+pub fn blake_static_oneshot(s: bool, outlen: usize, input: &[u8], key: &[u8]) -> Vec<u8> {
+    let mut out = dirty(outlen);
+    if s {
+        blake2s::Blake2s::blake2s(&mut out, input, key);
+    } else {
+        blake2b::Blake2b::blake2b(&mut out, input, key);
+    }
+    out
+}
